@@ -59,8 +59,13 @@ def script_program(rng, ncos=None, wrap_prob=0.25):
             elif c < 0.5:
                 i = rng.randrange(n)
                 ops.append(p.emit([p.str(tag + "-r%d" % (i + 1)), resume_expr(i, vals())]))
+                if not wrapped[k]:
+                    ops.append(p.emit([p.str(tag + "-still-me"), p.bin("==", p.call(_co(p, "running"), []), p.index(p.id("co"), p.num(k + 1))),
+                                       p.call(_co(p, "status"), [p.index(p.id("co"), p.num(k + 1))])]))
             elif c < 0.6:
                 ops.append(p.callstat(p.call(p.id("st"), [])))
+                if wrapped[k]:
+                    ops.append(p.emit([p.str(tag + "-running-is-thread"), p.call(p.id("type"), [p.call(_co(p, "running"), [])])]))
                 if not wrapped[k]:
                     ops.append(p.emit([p.str(tag + "-self"), p.bin("==", p.call(_co(p, "running"), []), p.index(p.id("co"), p.num(k + 1)))]))
             elif c < 0.68:
